@@ -49,8 +49,8 @@ class blockiterator(object):
         if padding:
             nPi = self.lastblock(Pi,**kargs)
             b,lastb= nPi[:self.blocklen],nPi[self.blocklen:]
-            if len(Pi)==0: self.bitcnt = 0
-            yield b
+            if len(Pi)==0 and len(b)>0: self.bitcnt = 0
+            if len(b)>0 or start==0: yield b
             if len(lastb)>0:
                 self.bitcnt = 0
                 yield lastb
@@ -82,8 +82,9 @@ class Nullpadding(blockiterator):
         else:
             bitlen = bitlen-self.bitcnt
         q = self.blocksize-bitlen
+        if bitlen==0 and self.bitcnt>0: q = 0
         b = (Bits(m,bitlen)//Bits(0,q)).bytes()
-        assert len(b)==self.blocklen
+        assert len(b) in (0,self.blocklen)
         self.bitcnt += bitlen
         self.padflag = True
         self.padcnt = q
